@@ -157,6 +157,101 @@ def extract(tree):
     b = norm(core_fn_body(buf, "cfun_buffer_blit"))
     if not re.search(r"int64_t last = \(int64_t\) offset_dest \+ length_src; if \(last > INT32_MAX\) janet_panic\(\"buffer blit out of range\"\); int32_t last32 = \(int32_t\) last; janet_buffer_ensure\(dest, last32, (\d+)\); if \(last32 > dest->count\) dest->count = last32;", b):
         raise ExtractError("cfun_buffer_blit: range guard not recognised")
+    # ---- session 3: shapes the buffer theorems (Props/C04 `abs_buf_*`, `no_oob_*`) are about
+    def self_shape(body, who):
+        """the `view.bytes == buffer->data` branch: overflow-safe `janet_buffer_extra(buffer, view.len)` or the
+        int32 sum `janet_buffer_ensure(buffer, buffer->count + view.len, 2)`"""
+        m = re.search(r"JanetByteView view = janet_getbytes\(argv, i\); if \(view\.bytes == buffer->data\) \{ (.*?) view\.bytes = buffer->data; \} janet_buffer_push_bytes\(buffer, view\.bytes, view\.len\);", body)
+        if not m:
+            raise ExtractError("%s: self-alias branch / push_bytes not recognised" % who)
+        st = m.group(1).strip()
+        if st == "janet_buffer_extra(buffer, view.len);":
+            return True
+        if st == "janet_buffer_ensure(buffer, buffer->count + view.len, 2);":
+            return False
+        raise ExtractError("%s: unrecognised statement in the self-alias branch: %r" % (who, st))
+    b = norm(csrc.func_body(buf, "buffer_push_impl"))
+    if not re.search(r"for \(int32_t i = argc_offset; i < argc; i\+\+\) \{ if \(janet_checktype\(argv\[i\], JANET_NUMBER\)\) \{ janet_buffer_push_u8\(buffer, \(uint8_t\)\(janet_getinteger\(argv, i\) & 0xFF\)\); \} else \{", b):
+        raise ExtractError("buffer_push_impl: number / byte-sequence dispatch not recognised")
+    s1 = self_shape(b, "buffer_push_impl")
+    b = norm(core_fn_body(buf, "cfun_buffer_chars"))
+    s2 = self_shape(b, "cfun_buffer_chars")
+    o["pushSelfNoOverflow"] = s1 and s2
+    b = norm(csrc.func_body(buf, "janet_buffer_push_bytes"))
+    if not re.search(r"if \(0 == length\) return; janet_buffer_extra\(buffer, length\); memcpy\(buffer->data \+ buffer->count, string, length\); buffer->count \+= length;", b):
+        raise ExtractError("janet_buffer_push_bytes: shape not recognised")
+    b = norm(csrc.func_body(buf, "janet_buffer_push_u8"))
+    if not re.search(r"janet_buffer_extra\(buffer, 1\); buffer->data\[buffer->count\] = byte; buffer->count\+\+;", b):
+        raise ExtractError("janet_buffer_push_u8: shape not recognised")
+    b = norm(csrc.func_body(buf, "janet_buffer_push_u32"))
+    if not re.search(r"janet_buffer_extra\(buffer, 4\); buffer->data\[buffer->count\] = x & 0xFF; buffer->data\[buffer->count \+ 1\] = \(x >> 8\) & 0xFF; buffer->data\[buffer->count \+ 2\] = \(x >> 16\) & 0xFF; buffer->data\[buffer->count \+ 3\] = \(x >> 24\) & 0xFF; buffer->count \+= 4;", b):
+        raise ExtractError("janet_buffer_push_u32: shape not recognised")
+    b = norm(core_fn_body(buf, "cfun_buffer_word"))
+    if not re.search(r"double number = janet_getnumber\(argv, i\); uint32_t word = \(uint32_t\) number; if \(word != number\) janet_panicf\([^;]*\); janet_buffer_push_u32\(buffer, word\);", b):
+        raise ExtractError("cfun_buffer_word: conversion check not recognised")
+    b = norm(core_fn_body(buf, "cfun_buffer_u8"))
+    if not re.search(r"for \(i = 1; i < argc; i\+\+\) \{ janet_buffer_push_u8\(buffer, \(uint8_t\)\(janet_getinteger\(argv, i\) & 0xFF\)\); \}", b):
+        raise ExtractError("cfun_buffer_u8: loop not recognised")
+    b = norm(core_fn_body(buf, "cfun_buffer_push_at"))
+    if not re.search(r"int32_t index = janet_getinteger\(argv, 1\); int32_t old_count = buffer->count; if \(index < 0 \|\| index > old_count\) \{ janet_panicf\([^;]*\); \} buffer->count = index; buffer_push_impl\(buffer, argv, 2, argc\); if \(buffer->count < old_count\) \{ buffer->count = old_count; \}", b):
+        raise ExtractError("cfun_buffer_push_at: index check / count restore not recognised")
+    b = norm(core_fn_body(buf, "cfun_buffer_push"))
+    if not re.search(r"JanetBuffer \*buffer = janet_getbuffer\(argv, 0\); buffer_push_impl\(buffer, argv, 1, argc\);", b):
+        raise ExtractError("cfun_buffer_push: shape not recognised")
+    b = norm(core_fn_body(buf, "cfun_buffer_trim"))
+    m = re.search(r"if \(buffer->count < buffer->capacity\) \{ int32_t newcap = buffer->count > (\d+) \? buffer->count : (\d+); uint8_t \*newData = janet_realloc\(buffer->data, newcap\);", b)
+    if not m or m.group(1) != m.group(2):
+        raise ExtractError("cfun_buffer_trim: shape not recognised")
+    o["bufferTrimMin"] = int(m.group(1))
+    b = norm(core_fn_body(buf, "cfun_buffer_popn"))
+    if not re.search(r"int32_t n = janet_getinteger\(argv, 1\); if \(n < 0\) janet_panic\([^;]*\); if \(buffer->count < n\) \{ buffer->count = 0; \} else \{ buffer->count -= n; \}", b):
+        raise ExtractError("cfun_buffer_popn: shape not recognised")
+    b = norm(core_fn_body(buf, "cfun_buffer_clear"))
+    if not re.search(r"JanetBuffer \*buffer = janet_getbuffer\(argv, 0\); buffer->count = 0;", b):
+        raise ExtractError("cfun_buffer_clear: shape not recognised")
+    b = norm(core_fn_body(buf, "cfun_buffer_new_filled"))
+    if not re.search(r"int32_t count = janet_getinteger\(argv, 0\); if \(count < 0\) count = 0; int32_t byte = 0; if \(argc == 2\) \{ byte = janet_getinteger\(argv, 1\) & 0xFF; \} JanetBuffer \*buffer = janet_buffer\(count\); if \(buffer->data && count > 0\) memset\(buffer->data, byte, count\); buffer->count = count;", b):
+        raise ExtractError("cfun_buffer_new_filled: shape not recognised")
+    b = norm(core_fn_body(buf, "cfun_buffer_frombytes"))
+    if not re.search(r"JanetBuffer \*buffer = janet_buffer\(argc\); for \(i = 0; i < argc; i\+\+\) \{ int32_t c = janet_getinteger\(argv, i\); buffer->data\[i\] = c & 0xFF; \} buffer->count = argc;", b):
+        raise ExtractError("cfun_buffer_frombytes: shape not recognised")
+    b = norm(core_fn_body(buf, "cfun_buffer_fill"))
+    if not re.search(r"if \(argc == 2\) \{ byte = janet_getinteger\(argv, 1\) & 0xFF; \} if \(buffer->count\) \{ memset\(buffer->data, byte, buffer->count\); \}", b):
+        raise ExtractError("cfun_buffer_fill: shape not recognised")
+    b = norm(core_fn_body(buf, "cfun_buffer_slice"))
+    if not re.search(r"JanetByteView view = janet_getbytes\(argv, 0\); JanetRange range = janet_getslice\(argc, argv\); JanetBuffer \*buffer = janet_buffer\(range\.end - range\.start\); if \(buffer->data\) memcpy\(buffer->data, view\.bytes \+ range\.start, range\.end - range\.start\); buffer->count = range\.end - range\.start;", b):
+        raise ExtractError("cfun_buffer_slice: shape not recognised")
+    b = norm(csrc.func_body(buf, "bitloc"))
+    if not re.search(r"double x = janet_getnumber\(argv, 1\); int64_t bitindex = \(int64_t\) x; int64_t byteindex = bitindex >> 3; int which_bit = bitindex & 7; if \(bitindex != x \|\| bitindex < 0 \|\| byteindex >= buffer->count\) janet_panicf", b):
+        raise ExtractError("bitloc: bit index decoding / range check not recognised")
+    for fn, stmt in (("cfun_buffer_bitset", r"buffer->data\[index\] \|= 1 << bit;"), ("cfun_buffer_bitclear", r"buffer->data\[index\] &= ~\(1 << bit\);"),
+                     ("cfun_buffer_bittoggle", r"buffer->data\[index\] \^= \(1 << bit\);"), ("cfun_buffer_bitget", r"return janet_wrap_boolean\(buffer->data\[index\] & \(1 << bit\)\);")):
+        b = norm(core_fn_body(buf, fn))
+        if not re.search(r"bitloc\(argc, argv, &buffer, &index, &bit\); " + stmt, b):
+            raise ExtractError("%s: shape not recognised" % fn)
+    b = norm(core_fn_body(buf, "cfun_buffer_blit"))
+    if not re.search(r"int same_buf = src\.bytes == dest->data; int32_t offset_dest = 0; int32_t offset_src = 0; "
+                     r"if \(argc > 2 && !janet_checktype\(argv\[2\], JANET_NIL\)\) offset_dest = janet_gethalfrange\(argv, 2, dest->count, \"dest-start\"\); "
+                     r"if \(argc > 3 && !janet_checktype\(argv\[3\], JANET_NIL\)\) offset_src = janet_gethalfrange\(argv, 3, src\.len, \"src-start\"\); "
+                     r"int32_t length_src; if \(argc > 4\) \{ int32_t src_end = src\.len; if \(!janet_checktype\(argv\[4\], JANET_NIL\)\) src_end = janet_gethalfrange\(argv, 4, src\.len, \"src-end\"\); "
+                     r"length_src = src_end - offset_src; if \(length_src < 0\) length_src = 0; \} else \{ length_src = src\.len - offset_src; \}", b):
+        raise ExtractError("cfun_buffer_blit: argument decoding not recognised")
+    if not re.search(r"if \(length_src\) \{ if \(same_buf\) \{ src\.bytes = dest->data; memmove\(dest->data \+ offset_dest, src\.bytes \+ offset_src, length_src\); \} else \{ memcpy\(dest->data \+ offset_dest, src\.bytes \+ offset_src, length_src\); \} \}", b):
+        raise ExtractError("cfun_buffer_blit: alias guard (memmove for the same buffer, source re-read after ensure) not recognised")
+    b = norm(csrc.func_body(val, "janet_put"))
+    if not re.search(r"case JANET_BUFFER: \{ JanetBuffer \*buffer = janet_unwrap_buffer\(ds\); int32_t index = getter_checkint\(type, key, INT32_MAX - 1\); if \(!janet_checkint\(value\)\) janet_panicf\([^;]*\); "
+                     r"if \(index >= buffer->count\) \{ janet_buffer_setcount\(buffer, index \+ 1\); \} buffer->data\[index\] = \(uint8_t\)\(janet_unwrap_integer\(value\) & 0xFF\); break; \}", b):
+        raise ExtractError("janet_put: buffer case not recognised")
+    # ---- arrays: new-filled / peek / clear / trim / join
+    b = norm(core_fn_body(arr, "cfun_array_new_filled"))
+    if not re.search(r"int32_t count = janet_getnat\(argv, 0\); Janet x = \(argc == 2\) \? argv\[1\] : janet_wrap_nil\(\); JanetArray \*array = janet_array\(count\); for \(int32_t i = 0; i < count; i\+\+\) \{ array->data\[i\] = x; \} array->count = count;", b):
+        raise ExtractError("cfun_array_new_filled: shape not recognised")
+    b = norm(csrc.func_body(arr, "janet_array_peek"))
+    if not re.search(r"if \(array->count\) \{ return array->data\[array->count - 1\]; \} else \{ return janet_wrap_nil\(\); \}", b):
+        raise ExtractError("janet_array_peek: shape not recognised")
+    b = norm(core_fn_body(arr, "cfun_array_clear"))
+    if not re.search(r"JanetArray \*array = janet_getarray\(argv, 0\); array->count = 0;", b):
+        raise ExtractError("cfun_array_clear: shape not recognised")
     return o
 
 
